@@ -168,7 +168,7 @@ Call(c) ==
   /\ InDomain(c)
   \* the two value classes are not multiplied: objects with array-valued annotations take every call
   \* in the default forms (the recorded histories mix forms and shapes at random)
-  /\ (c[6] \/ ~HasShaped(S))
+  /\ (HasShaped(S) => c[6])
   /\ (c[4] = "index" => Dom_Index(S, c[5]))
   /\ LET r == Apply(S, c[4], c[5]) IN
      /\ N(r.st) <= MaxN /\ D(r.st) <= MaxD
